@@ -70,12 +70,24 @@ def _trace_cfg():
     return name
 
 
+def split_traces(path):
+    """[(first line number, [lines])] - a trace starts at a reset line (the operation is a tuple here,
+    so vlib.split_traces does not see the reset lines)."""
+    traces = []
+    with open(path) as f:
+        for no, line in enumerate(f, 1):
+            if line.startswith('{"op":["reset"') or not traces:
+                traces.append((no, []))
+            traces[-1][1].append(line)
+    return traces
+
+
 def validate(trace_path, tag, max_rejections=8):
     """TraceRemoteCfg over one concatenated trace file.  Returns (n_traces, n_events, devs, rejections):
     devs = [(signature, line of the trace file)] of lines that only a NAMED as-coded outcome explains
     (consumed, validation continues), rejections = [dict(sig, trace, line_in_trace, event)] (the trace
     is cut out and the rest validated again)."""
-    traces = vlib.split_traces(trace_path)
+    traces = split_traces(trace_path)
     n_traces, n_events = len(traces), sum(len(t[1]) for t in traces)
     devs, rejections = [], []
     remaining = traces
@@ -112,7 +124,7 @@ def validate(trace_path, tag, max_rejections=8):
         first, lines = remaining[hit]
         k = res.rejected_at - offsets[hit][0]
         rejections.append({"sig": res.broken.get(res.rejected_at, "remotecfg/trace/rejected"), "trace": lines,
-                           "line_in_trace": k + 1, "event": lines[k].strip()})
+                           "trace_first_line": first, "line_in_trace": k + 1, "event": lines[k].strip()})
         remaining = remaining[:hit] + remaining[hit + 1:]
         if len(rejections) >= max_rejections:
             break
@@ -247,7 +259,7 @@ def run(v, prop, tier, seed):
             if o == "SYS":
                 notes[s] = notes.get(s, 0) + 1
             elif o == prop:
-                v.violation(s, dict(engine=ENGINE, mode="trace-deviation", trace_file_line=ln,
+                v.violation(s, dict(engine=ENGINE, mode="remotecfg-trace-deviation", trace_file_line=ln,
                                     detail="the recorded line is explained only by the named as-coded outcome"))
         for r in rejections:
             rejected += 1
@@ -255,7 +267,7 @@ def run(v, prop, tier, seed):
             if o == "SYS":
                 notes[r["sig"]] = notes.get(r["sig"], 0) + 1
             elif o == prop:
-                v.violation(r["sig"], dict(engine=ENGINE, mode="trace", trace=[json.loads(x) for x in r["trace"][:r["line_in_trace"]]],
+                v.violation(r["sig"], dict(engine=ENGINE, mode="remotecfg-trace", trace=[json.loads(x) for x in r["trace"][:r["line_in_trace"]]],
                                            rejected_line=r["line_in_trace"], event=json.loads(r["event"])))
     if prop == CRASH_OWNER or os.environ.get("REMOTECFG_NOTES"):
         for s in sorted(notes):
